@@ -317,9 +317,77 @@ func c25body(c c25cfg) func(x *vsched.Exec) {
 	}
 }
 
+
+// c25blocking: a dedicated session issues a batch that contains a blocking command (BLPOP on an empty list) with a
+// context that another thread cancels at any point, then releases the session. The connection still has the BLPOP
+// outstanding: it must not be handed to the next holder (it has to be closed), the release must not wait for the
+// BLPOP, and an element pushed later must not be swallowed by the abandoned BLPOP.
+func c25blocking(viaDo bool) func(x *vsched.Exec) {
+	return func(x *vsched.Exec) {
+		e := vwNew(func(o *ClientOption, srv *simredis.Server, n *simnet.Net) {
+			o.BlockingPoolSize = 1
+		})
+		if e.err != nil {
+			x.Fail("client setup failed", "%v", e.err)
+			return
+		}
+		cctx, cancel := context.WithCancel(context.Background())
+		released, nextDone := false, false
+		var sessErr error
+		vsched.GoNamed("ded1", func() {
+			dc, release := e.client.Dedicate()
+			b := dc.B()
+			if viaDo {
+				sessErr = dc.Do(cctx, b.Blpop().Key("list").Timeout(0).Build()).Error()
+			} else {
+				rs := dc.DoMulti(cctx, b.Echo().Message("d1-start").Build(), b.Blpop().Key("list").Timeout(0).Build())
+				sessErr = rs[len(rs)-1].Error()
+			}
+			release()
+			released = true
+		})
+		vsched.GoNamed("canceller", func() { cancel() })
+		vsched.GoNamed("next-holder", func() {
+			vsched.Point("gate-release", func() bool { return released })
+			e.client.Dedicated(func(d2 DedicatedClient) error {
+				d2.Do(context.Background(), d2.B().Echo().Message("n-start").Build())
+				d2.Do(context.Background(), d2.B().Echo().Message("n-end").Build())
+				return nil
+			})
+			nextDone = true
+			e.srv.Do("RPUSH", "list", "x")
+		})
+		if x.Run() != vsched.Quiescent {
+			return // a release that waits for the abandoned BLPOP shows up as a deadlock
+		}
+		if !nextDone {
+			x.Fail("harness: next holder did not finish", "")
+			return
+		}
+		for _, ss := range e.srv.Sessions {
+			blpopAt, startAt := -1, -1
+			for i, a := range ss.Received {
+				if strings.ToUpper(a[0]) == "BLPOP" {
+					blpopAt = i
+				}
+				if len(a) == 2 && a[1] == "n-start" {
+					startAt = i
+				}
+			}
+			if blpopAt >= 0 && startAt > blpopAt {
+				x.Fail("connection with an abandoned blocking command handed to the next holder", "the next holder's commands were sent on the connection that still has BLPOP outstanding: %v", ss.Received)
+			}
+		}
+		if n := e.srv.Do("LLEN", "list"); n.I != 1 {
+			x.Fail("an element pushed after the session ended was swallowed by the abandoned blocking command", "LLEN list = %d after RPUSH list x (the BLPOP's caller had given up and released its session before)", n.I)
+		}
+		x.Outcome = fmt.Sprintf("session err=%s", vwErrStr(sessErr))
+	}
+}
+
 func TestVerif_C25(t *testing.T) {
 	vrun.Main(t, "C25", func(r *vrun.Run) {
-		r.Rule = "a dedicated session (WATCH; MULTI; SET; EXEC, optionally Pub/Sub hooks + SUBSCRIBE) through Dedicate()/cancel and Dedicated(fn), concurrently with a second dedicated session, shared-pipeline commands and a blocking BLPOP on the same pool (size 1-2), followed by a later holder reusing the pooled connection; plus a session whose retryable command is in retry back-off (LOADING once, retries on) while another thread releases it and a later holder runs its transaction on the same connection; all schedules within the preemption/delay bound; oracle on the fake server's per-connection command logs"
+		r.Rule = "a dedicated session (WATCH; MULTI; SET; EXEC, optionally Pub/Sub hooks + SUBSCRIBE) through Dedicate()/cancel and Dedicated(fn), concurrently with a second dedicated session, shared-pipeline commands and a blocking BLPOP on the same pool (size 1-2), followed by a later holder reusing the pooled connection; plus a session that abandons a blocking command (Do / batch with BLPOP, context cancelled at any point) and releases, after which the next holder must get another connection and a later push must not be swallowed; plus a session whose retryable command is in retry back-off (LOADING once, retries on) while another thread releases it and a later holder runs its transaction on the same connection; all schedules within the preemption/delay bound; oracle on the fake server's per-connection command logs"
 		cfgs := []c25cfg{
 			{name: "pool1/ded+shared", pool: 1, shared: true},
 			{name: "pool1/fn/ded+shared", pool: 1, shared: true, viaFn: true},
@@ -336,6 +404,13 @@ func TestVerif_C25(t *testing.T) {
 				body = c25stale(c)
 			}
 			vexp.Run(r, vexp.Prog{Name: c.name, Delay: 1, Budget: vsched.Budget{MaxPreempt: vrun.Pick(r, 1, 2)}, Opts: vsched.Options{Horizon: 20000, MaxVirtual: time.Minute}, Body: body, Seconds: r.Remaining() / float64(len(cfgs)-ci)})
+		}
+		for _, viaDo := range []bool{false, true} {
+			name := "pool1/blocking-batch-cancel|release|next-holder"
+			if viaDo {
+				name = "pool1/blocking-do-cancel|release|next-holder"
+			}
+			vexp.Run(r, vexp.Prog{Name: name, Delay: 1, Budget: vsched.Budget{MaxPreempt: vrun.Pick(r, 1, 2)}, Opts: vsched.Options{Horizon: 20000, MaxVirtual: time.Minute}, Body: c25blocking(viaDo), Seconds: vrun.Pick(r, 10.0, 60.0)})
 		}
 		r.Assume("isolation is judged on the fake server's per-connection command log between the session's first and last command")
 	})
